@@ -536,6 +536,8 @@ func runC08(c *Collector, r *Rng, thorough bool) {
 		}
 	}
 	c08Keys(c)
+	c08KeyOps(c)
+	c08CsigLists(c)
 }
 
 func genGoPayloadNonNil(r *Rng) []byte {
@@ -755,6 +757,91 @@ func runC09(c *Collector, r *Rng, thorough bool) {
 		}
 		c09Cleared(c, cs.kind, data, map[string]any{"kind": cs.kind, "data": cs.hex})
 		c09Partial(c, cs.kind, data, d.reenc, map[string]any{"kind": cs.kind, "data": cs.hex})
+	}
+	// indefinite-length items (chunked payload or signature, one chunk or several; indefinite arrays and maps; a chunked
+	// string inside a header value): not "the same bytes apart from length-prefix widths" whatever they would be
+	// re-encoded to - a decoder that accepts one must give it back unchanged, which no definite-length encoder does
+	for _, cs := range []struct{ kind, hex string }{
+		{"DSign1", "d28443a10126a0" + "5f426865436c6c6fff" + "420102"}, {"DSign1", "d28443a10126a0" + "5f4568656c6c6fff" + "420102"}, {"DSign1", "d28443a10126a0" + "5fff" + "420102"},
+		{"DSign1", "d28443a10126a0" + "4568656c6c6f" + "5f41014102ff"}, {"DSign1U", "8443a10126a0" + "5f426865436c6c6fff" + "420102"}, {"DSign1", "d2" + "9f43a10126a0" + "4568656c6c6f" + "420102" + "ff"},
+		{"DSign1", "d28443a10126" + "bfff" + "4568656c6c6f" + "420102"}, {"DSign1", "d28443a10126" + "a1187b5f4101ff" + "4568656c6c6f" + "420102"}, {"DSign1", "d28443a10126" + "a1187b7f6161ff" + "4568656c6c6f" + "420102"},
+		{"DSign1", "d284" + "5f43a10126ff" + "a0" + "4568656c6c6f" + "420102"}, {"DSign1", "d28444bf0126ffa0" + "4568656c6c6f" + "420102"},
+		{"DSignature", "8343a10126a0" + "5f41014102ff"}, {"DSignature", "9f43a10126a0420102ff"},
+		{"DSignMsg", "d8628440a0" + "5f426865436c6c6fff" + "818343a10126a0420102"}, {"DSignMsg", "d8628440a0" + "4568656c6c6f" + "818343a10126a0" + "5f41014102ff"}, {"DSignMsg", "d8628440a0" + "4568656c6c6f" + "9f8343a10126a0420102ff"},
+	} {
+		data := unhex(cs.hex)
+		d := decodeCase(c, "indefinite-length/"+cs.kind, cs.kind, data)
+		if d.err != nil || d.paniced {
+			continue
+		}
+		rep := map[string]any{"kind": cs.kind, "data": cs.hex}
+		if d.reerr != nil || !bytes.Equal(d.reenc, data) {
+			c.Fail("C09/reencode-differs", fmt.Sprintf("an accepted message with an indefinite-length item is re-encoded to %x (%v): more than the width of a length prefix has changed", d.reenc, d.reerr), rep)
+		}
+	}
+	// lists of two and three different countersignatures (labels 7 and 11) in every layer of canonical messages: every
+	// decoded entry is the wire's entry at its position, and the canonical input comes out identical, with the retained
+	// bytes and without them
+	for _, label := range []int64{7, 11} {
+		for _, nent := range []int{2, 3} {
+			var ents []*W
+			for e := 0; e < nent; e++ {
+				ents = append(ents, wArr(-1, wBstr(wMap(-1, wInt(1, -1), wInt(-7, -1), wInt(4, -1), wBstr([]byte{byte('a' + e)}, -1)).Ser(), -1), wMap(-1, wInt(4, -1), wBstr([]byte{byte('u' + e)}, -1)), wBstr([]byte{byte(0x10 + e), 0xcc}, -1)))
+			}
+			lst := func() *W {
+				var cp []*W
+				for _, e := range ents {
+					cp = append(cp, e.Clone())
+				}
+				return wArr(-1, cp...)
+			}
+			pb := wBstr(wMap(-1, wInt(1, -1), wInt(-7, -1)).Ser(), -1)
+			for _, tk := range []struct {
+				kind string
+				t    *W
+			}{
+				{"DSign1", wTag(18, -1, wArr(-1, pb.Clone(), wMap(-1, wInt(label, -1), lst()), wBstr([]byte("p"), -1), wBstr([]byte{1, 2}, -1)))},
+				{"DSign1U", wArr(-1, pb.Clone(), wMap(-1, wInt(label, -1), lst()), wBstr([]byte("p"), -1), wBstr([]byte{1, 2}, -1))},
+				{"DSignature", wArr(-1, pb.Clone(), wMap(-1, wInt(label, -1), lst()), wBstr([]byte{1, 2}, -1))},
+				{"DSignMsg", wTag(98, -1, wArr(-1, wBstr(nil, -1), wMap(-1, wInt(label, -1), lst()), wBstr([]byte("p"), -1), wArr(-1, wArr(-1, pb.Clone(), wMap(-1, wInt(label, -1), lst()), wBstr([]byte{1, 2}, -1)))))},
+				{"DSign1", wTag(18, -1, wArr(-1, pb.Clone(), wMap(-1, wInt(label, -1), wArr(-1, pb.Clone(), wMap(-1, wInt(label, -1), lst()), wBstr([]byte{7}, -1))), wBstr([]byte("p"), -1), wBstr([]byte{1, 2}, -1)))},
+			} {
+				data := tk.t.Ser()
+				d := decodeCase(c, "countersignature-lists/"+tk.kind, tk.kind, data)
+				if d.err != nil || d.paniced {
+					continue
+				}
+				rep := map[string]any{"kind": tk.kind, "data": hx(data), "label": label, "entries": nent}
+				if d.reerr != nil || !bytes.Equal(d.reenc, data) {
+					c.Fail("C09/reencode-differs", fmt.Sprintf("re-encoding a canonical message changed it: %x (%v)", d.reenc, d.reerr), rep)
+					continue
+				}
+				// each decoded entry is the wire's entry at its position
+				for li, h := range layersOf(&d) {
+					if got, ok := h.Unprotected[label].([]*cose.Countersignature); ok {
+						for e, cs := range got {
+							if e >= len(ents) || cs == nil {
+								continue
+							}
+							wantKid := []byte{byte('a' + e)}
+							kid, _ := cs.Headers.Protected[int64(4)].([]byte)
+							if !bytes.Equal(kid, wantKid) || !bytes.Equal(cs.Signature, []byte{byte(0x10 + e), 0xcc}) {
+								c.Fail("C09/decoded-differs", fmt.Sprintf("entry %d of a countersignature list in layer %d decodes to kid %x, signature %x; the wire has kid %x, signature %x", e, li, kid, cs.Signature, wantKid, []byte{byte(0x10 + e), 0xcc}), rep)
+							}
+						}
+					}
+				}
+				// the canonical input comes out identical once the retained bytes are discarded
+				dc := decodeKind(tk.kind, data)
+				for _, h := range layersOf(&dc) {
+					clearRaw(h)
+				}
+				if out, err := encodeDecoded(tk.kind, &dc); err != nil || !bytes.Equal(out, data) {
+					c.Fail("C09/cleared-differs", fmt.Sprintf("a canonical message decoded, its retained bytes discarded, encoded again: %x (%v)", out, err), rep)
+				}
+				c09Cleared(c, tk.kind, data, rep)
+			}
+		}
 	}
 	// registered and unregistered alg values (the reserved value 0, private use, large) in the protected bucket of every
 	// layer: accepted on decoding means encodable again from the decoded form
@@ -1104,15 +1191,17 @@ func layersOf(d *decoded) []*cose.Headers {
 	var walk func(h *cose.Headers)
 	walk = func(h *cose.Headers) {
 		out = append(out, h)
-		switch t := h.Unprotected[int64(11)].(type) {
-		case *cose.Countersignature:
-			if t != nil {
-				walk(&t.Headers)
-			}
-		case []*cose.Countersignature:
-			for _, e := range t {
-				if e != nil {
-					walk(&e.Headers)
+		for _, lbl := range []int64{11, 7} {
+			switch t := h.Unprotected[lbl].(type) {
+			case *cose.Countersignature:
+				if t != nil {
+					walk(&t.Headers)
+				}
+			case []*cose.Countersignature:
+				for _, e := range t {
+					if e != nil {
+						walk(&e.Headers)
+					}
 				}
 			}
 		}
@@ -1278,6 +1367,114 @@ func c08Keys(c *Collector) {
 								if wv.Maj != 2 || !bytes.HasSuffix(wv.Str, gb) || len(bytes.Trim(wv.Str[:len(wv.Str)-len(gb)], "\x00")) != 0 {
 									c.Fail("C08/key-parameter-changed", fmt.Sprintf("parameter %d is %x; its serialisation carries %x", lbl, gb, wv.Ser()), rep)
 								}
+							}
+						}
+					}
+				}
+			}
+		}
+	}
+}
+
+// c08KeyOps: key_ops in every state a key can hold them (nil, empty but present, one entry, several, repeated entries,
+// values outside the registry): the serialisation carries parameter 4 exactly when the key has the list, with the same
+// entries in the same order, and parses back to a key with the same restrictions.
+func c08KeyOps(c *Collector) {
+	for oi, ops := range [][]cose.KeyOp{nil, {}, {cose.KeyOpSign}, {cose.KeyOpVerify}, {cose.KeyOpSign, cose.KeyOpVerify}, {cose.KeyOpVerify, cose.KeyOpVerify}, {99}, {-1, 2}} {
+		for _, kty := range []cose.KeyType{cose.KeyTypeOKP, cose.KeyTypeEC2, cose.KeyTypeSymmetric} {
+			k := cose.Key{Type: kty, Ops: ops, Params: map[any]any{}}
+			switch kty {
+			case cose.KeyTypeOKP:
+				k.Params[cose.KeyLabelOKPCurve] = cose.CurveEd25519
+				k.Params[cose.KeyLabelOKPX] = bytes.Repeat([]byte{3}, 32)
+			case cose.KeyTypeEC2:
+				k.Params[cose.KeyLabelEC2Curve] = cose.CurveP256
+				k.Params[cose.KeyLabelEC2X] = bytes.Repeat([]byte{3}, 32)
+				k.Params[cose.KeyLabelEC2Y] = bytes.Repeat([]byte{4}, 32)
+			default:
+				k.Params[cose.KeyLabelSymmetricK] = []byte{1, 2, 3}
+			}
+			op, obs, out, err, p := execEncKey(&k)
+			c08Check(c, "enc/key-ops", op, obs, out, err, p, "DKey", func() ([]byte, error) { return k.MarshalCBOR() }, 1, false)
+			if err != nil || p {
+				continue
+			}
+			rep := map[string]any{"kty": int64(kty), "ops": fmt.Sprint(ops), "ops_nil": ops == nil, "out": hx(out), "case": oi}
+			w, perr := refParseFull(out)
+			if perr != nil || w.Maj != 5 {
+				continue
+			}
+			var onWire *W
+			for j := 0; j+1 < len(w.Kids); j += 2 {
+				if w.Kids[j].Maj == 0 && w.Kids[j].Val == 4 {
+					onWire = w.Kids[j+1]
+				}
+			}
+			switch {
+			case ops == nil && onWire != nil:
+				c.Fail("C08/key-parameter-invented", fmt.Sprintf("the key has no key_ops; its serialisation carries %x", onWire.Ser()), rep)
+			case ops != nil && onWire == nil:
+				c.Fail("C08/key-parameter-dropped", fmt.Sprintf("the key has key_ops %v (present, %d entries); its serialisation has no parameter 4", ops, len(ops)), rep)
+			case ops != nil && (onWire.Maj != 4 || len(onWire.Kids) != len(ops)):
+				c.Fail("C08/key-parameter-changed", fmt.Sprintf("the key has key_ops %v; its serialisation carries %x", ops, onWire.Ser()), rep)
+			}
+			var back cose.Key
+			if err := back.UnmarshalCBOR(out); err != nil {
+				c.Fail("C08/not-decodable", "a serialised key cannot be parsed back: "+err.Error(), rep)
+			} else if (back.Ops == nil) != (ops == nil) || len(back.Ops) != len(ops) {
+				c.Fail("C08/not-equivalent", fmt.Sprintf("key_ops %v (nil=%v) come back as %v (nil=%v)", ops, ops == nil, back.Ops, back.Ops == nil), rep)
+			}
+		}
+	}
+}
+
+// c08CsigLists: unprotected buckets holding lists of two to four different countersignatures (labels 7 and 11): the
+// serialisation is canonical, parses back, and every parsed entry is the entry at that position - same protected
+// bucket, same unprotected bucket, same signature.
+func c08CsigLists(c *Collector) {
+	for _, label := range []int64{7, 11} {
+		for n := 2; n <= 4; n++ {
+			var list []*cose.Countersignature
+			for e := 0; e < n; e++ {
+				list = append(list, &cose.Countersignature{Headers: cose.Headers{
+					Protected:   cose.ProtectedHeader{cose.HeaderLabelAlgorithm: cose.AlgorithmES256, cose.HeaderLabelKeyID: []byte{byte('a' + e)}},
+					Unprotected: cose.UnprotectedHeader{int64(-70050): int64(e)}}, Signature: []byte{byte(0x20 + e), 0xdd}})
+			}
+			u := cose.UnprotectedHeader{label: list}
+			op, obs, out, err, p := execEncUnprot(u)
+			c08Check(c, "enc/countersignature-list", op, obs, out, err, p, "DUnprot", func() ([]byte, error) { return u.MarshalCBOR() }, 1, false)
+			if err != nil || p {
+				continue
+			}
+			rep := map[string]any{"label": label, "entries": n, "out": hx(out)}
+			var back cose.UnprotectedHeader
+			if err := back.UnmarshalCBOR(out); err != nil {
+				c.Fail("C08/not-decodable", "an encoded list of countersignatures cannot be parsed back: "+err.Error(), rep)
+				continue
+			}
+			got, ok := back[label].([]*cose.Countersignature)
+			if !ok || len(got) != n {
+				c.Fail("C08/not-equivalent", fmt.Sprintf("a list of %d countersignatures comes back as %T of %d", n, back[label], len(got)), rep)
+				continue
+			}
+			for e, cs := range got {
+				kid, _ := cs.Headers.Protected[cose.HeaderLabelKeyID].([]byte)
+				idx, _ := cs.Headers.Unprotected[int64(-70050)].(int64)
+				if cs == nil || !bytes.Equal(kid, []byte{byte('a' + e)}) || idx != int64(e) || !bytes.Equal(cs.Signature, []byte{byte(0x20 + e), 0xdd}) {
+					c.Fail("C08/not-equivalent", fmt.Sprintf("entry %d of %d comes back with kid %x, index %d, signature %x", e, n, kid, idx, cs.Signature), rep)
+					break
+				}
+			}
+			// ... and inside a message
+			m := &cose.Sign1Message{Headers: cose.Headers{Protected: cose.ProtectedHeader{cose.HeaderLabelAlgorithm: cose.AlgorithmES256}, Unprotected: u}, Payload: []byte("p"), Signature: []byte{1}}
+			if mb, err := m.MarshalCBOR(); err == nil {
+				var mback cose.Sign1Message
+				if err := mback.UnmarshalCBOR(mb); err == nil {
+					if got, ok := mback.Headers.Unprotected[label].([]*cose.Countersignature); ok && len(got) == n {
+						for e, cs := range got {
+							if !bytes.Equal(cs.Signature, []byte{byte(0x20 + e), 0xdd}) {
+								c.Fail("C08/not-equivalent", fmt.Sprintf("inside a COSE_Sign1: entry %d of %d comes back with signature %x", e, n, cs.Signature), rep)
+								break
 							}
 						}
 					}
